@@ -604,7 +604,9 @@ def explore_node(chk, cases, rng, tag):
 def run(chk):
     rng = random.Random(chk.seed)
     gen_dict.generate()
-    chk.lean = core.lean_build(["BromeliaVerif.Properties.C03"])
+    import gen_split
+    chk.tie_notes += gen_split.generate()[1]      # tie (a): split_data_stream translated to Gen/Split.lean on every run
+    chk.lean = core.lean_build(["BromeliaVerif.Properties.C03", "BromeliaVerif.Properties.C04Gen"])
     g = bromgen.Gen(rng)
     g.build, g.flag_mode, g.override = False, "all", 0.3
     chk.rule = ("malformed corpus: well-formed streams from the Lean reference encoder (incl. known codes with wrong-width / "
